@@ -36,7 +36,10 @@ TRUSTED = ["Gen/Corrector.lean, Gen/Strategies.lean: tables extracted from src/e
            "enumeration order of the Python set `short_introns` is an input of the model (universally quantified)"]
 ASSUMPTIONS = ["CPython int semantics = Lean Int",
                "read_exons of an alignment are gapped (consecutive blocks separated by >= 1 reference base): C16's output invariant",
-               "events name index ranges of the read introns (0 <= r0 <= r1 < #read introns) or carry the absent/undefined sentinels",
+               "events name index ranges of the read introns (0 <= r0 <= r1 < #read introns) or carry the absent/undefined sentinels "
+               "(WellFormedRegions; not provable - the comparator is an input of the model - but MONITORED on every real "
+               "correct_assigned_read call of every pipeline run of the oracle: harness/mon_wrap.py `c14events`, together with "
+               "the next three assumptions)",
                "annotation: the assigned isoform lies inside the chromosome (1 <= start, end <= chromosome length)",
                "AlignmentInfo.read_start/read_end are the ends of read_exons after the polyA/polyT-exon trimming, and params.delta is "
                "the --delta given on the command line (glue outside the model: watched by the pipeline oracle with reads whose "
@@ -1022,18 +1025,45 @@ def input_alignment(bam_exons, t, reported, polya_found):
     return bam_exons
 
 
+MON_WRAP = os.path.join(vlib.HERE, "mon_wrap.py")
+
+
+def monitor_env(d, tag):
+    """G3 (hypothesis audit): every pipeline run of this oracle goes through harness/mon_wrap.py, which evaluates on
+    every real `ExonCorrector.correct_assigned_read` call the hypotheses the C14 theorems put on its arguments
+    (`WellFormedRegions` of the events, `Spaced` exons, read region = ends of the exons, #introns, isoform inside the
+    chromosome), and on every real `assign_to_isoform` call that no isoform match has a negative penalty (G7: `NonNegFirst`
+    of the C15 reuse theorems; the events' index ranges are the hypothesis of Props/C15Penalty.lean)
+    -> (wrapper, env, monitor file)"""
+    mon = os.path.join(d, "mon_%s.jsonl" % tag)
+    return MON_WRAP, {"MON_FILE": mon, "MON_SET": "c14events,penalty"}, mon
+
+
+def monitor_failures(mon, stats=None):
+    """violated interface hypotheses recorded by the wrapper -> [(kind, read, detail)]"""
+    import mon_wrap
+    calls, viol = mon_wrap.read_monitor(mon)
+    if stats is not None:
+        stats["corrector_calls"] = stats.get("corrector_calls", 0) + calls.get("c14events", 0)
+        stats["assigner_calls"] = stats.get("assigner_calls", 0) + calls.get("penalty", 0)
+    return [("hyp_" + str(r.get("kind")), r.get("read"),
+             "hypothesis of the C14 theorems violated by what the real assigner hands to correct_assigned_read: %s"
+             % {k: v for k, v in r.items() if k not in ("mon", "kind", "read")}) for r in viol]
+
+
 MOVED_COPY_WINDOW = 12   # largest preset delta: an isoform intron this close to a read intron at both ends is a moved copy
 
 
 def check_pipeline_run(P, d, paths, ds, truth, delta, strategy, flags_by_strategy=None, data_type="nanopore"):
     outdir = os.path.join(d, "out_" + strategy)
+    wrap, menv, mon = monitor_env(d, strategy)
     rc, log = P.run_isoquant(outdir, P.std_args(paths, data_type=data_type,
                                                 extra=["--splice_correction_strategy", strategy, "--delta", str(delta),
-                                                       "--no_model_construction"]))
-    fails = []
+                                                       "--no_model_construction"]), wrapper=wrap, env=menv)
     stats = {"records": 0, "changed": 0, "reads": len(truth)}
+    fails = monitor_failures(mon, stats)
     if rc != 0:
-        return [("pipeline_failed", None, "rc=%s: %s" % (rc, log[-600:]))], stats
+        return fails + [("pipeline_failed", None, "rc=%s: %s" % (rc, log[-600:]))], stats
     files = P.out_files(outdir)
     bedf = [f for n, f in files.items() if n.endswith("corrected_reads.bed")]
     tsvf = [f for n, f in files.items() if n.endswith("read_assignments.tsv")]
@@ -1117,10 +1147,12 @@ def run_illumina_pipeline(seed, strategy, flags_by_strategy=None):
         paths = ds.write(os.path.join(d, "data"))
         sp = sh.write(os.path.join(d, "short"), bam_name="short.bam", write_ref=False)
         outdir = os.path.join(d, "out")
+        wrap, menv, mon = monitor_env(d, "ill")
         rc, log = P.run_isoquant(outdir, P.std_args(paths, extra=["--illumina_bam", sp["bam"], "--splice_correction_strategy", strategy,
-                                                                 "--delta", "6", "--no_model_construction"]))
+                                                                 "--delta", "6", "--no_model_construction"]), wrapper=wrap, env=menv)
+        fails += monitor_failures(mon, stats)
         if rc != 0:
-            return [("pipeline_failed", None, "rc=%s: %s" % (rc, log[-600:]))], stats
+            return fails + [("pipeline_failed", None, "rc=%s: %s" % (rc, log[-600:]))], stats
         files = P.out_files(outdir)
         bedf = [f for n, f in files.items() if n.endswith("corrected_reads.bed")]
         if not bedf:
@@ -1187,9 +1219,12 @@ def run_tiny_case(strategy):
     try:
         paths = ds.write(os.path.join(d, "data"))
         outdir = os.path.join(d, "out")
-        rc, log = P.run_isoquant(outdir, P.std_args(paths, extra=["--splice_correction_strategy", strategy, "--no_model_construction"]))
+        wrap, menv, mon = monitor_env(d, "tiny")
+        rc, log = P.run_isoquant(outdir, P.std_args(paths, extra=["--splice_correction_strategy", strategy, "--no_model_construction"]),
+                                 wrapper=wrap, env=menv)
+        fails += monitor_failures(mon)
         if rc != 0:
-            return [("pipeline_failed", None, "rc=%s: %s" % (rc, log[-600:]))]
+            return fails + [("pipeline_failed", None, "rc=%s: %s" % (rc, log[-600:]))]
         files = P.out_files(outdir)
         bedf = [f for n, f in files.items() if n.endswith("corrected_reads.bed")]
         n = 0
@@ -1280,6 +1315,8 @@ def oracle(ctx, disagreements, broken):
                 pstats["trimmed"] += st.get("trimmed", 0)
                 pstats["records"] += st["records"]
                 pstats["changed"] += st["changed"]
+                pstats["corrector_calls_monitored"] = pstats.get("corrector_calls_monitored", 0) + st.get("corrector_calls", 0)
+                pstats["assigner_calls_monitored"] = pstats.get("assigner_calls_monitored", 0) + st.get("assigner_calls", 0)
                 ctx.count("pipeline:%s:records" % strat, st["records"])
                 ctx.count("pipeline:%s:changed" % strat, st["changed"])
                 per_kind = {}
@@ -1304,13 +1341,39 @@ def oracle(ctx, disagreements, broken):
         istats["runs"] += 1
         istats["records"] += st["records"]
         istats["changed"] += st["changed"]
+        istats["corrector_calls_monitored"] = istats.get("corrector_calls_monitored", 0) + st.get("corrector_calls", 0)
         per_kind = {}
         for kind, name, detail in fails:
             per_kind[kind] = per_kind.get(kind, 0) + 1
             if per_kind[kind] <= 3:
                 ctx.fail(kind, {"level": "illumina_pipeline", "seed": iseed, "strategy": strat, "read": name}, detail)
+    # 5. the hypothesis monitor itself (G3): it must have been reached, and its predicate must reject what it is there to
+    #    reject (the inputs of `process_events_terminates`'s counterexample class: a range that ends before it starts,
+    #    an index beyond the read introns, touching exons)
+    import mon_wrap
+    und, absent = (G.UNDEF, G.UNDEF), G.ABSENT
+    selftest = [
+        (([(10, 20), (31, 40), (61, 70)], 10, 70, [("intron_shift", (0, 1)), ("fake_micro_intron_retention", (absent, 1)),
+                                                   ("none", und)], 2, (5, 90), 100), []),
+        (([(10, 20), (31, 40), (61, 70)], 10, 70, [("intron_retention", (0, -1))], 2, (5, 90), 100), ["event_malformed"]),
+        (([(10, 20), (31, 40), (61, 70)], 10, 70, [("intron_shift", (1, 2))], 2, (5, 90), 100), ["event_malformed"]),
+        (([(10, 20), (21, 40)], 10, 40, [], 1, (5, 90), 100), ["exons_not_spaced"]),
+        (([(10, 20), (31, 40)], 12, 40, [], 1, (0, 90), 80), ["read_region_stale", "isoform_outside_chromosome"]),
+    ]
+    for args, want in selftest:
+        got = [k for k, _ in mon_wrap.c14_event_problems(*args, und, absent)]
+        if got != want:
+            ctx.notes.append("C14 hypothesis monitor self-test: %s gives %s, expected %s" % (args, got, want))
+            ctx.fail("monitor_selftest", {"level": "monitor", "args": vlib.canon(args)}, "predicate gives %s, expected %s" % (got, want))
+    monitored = pstats.get("corrector_calls_monitored", 0) + istats.get("corrector_calls_monitored", 0)
+    if pstats["records"] and not monitored:
+        ctx.notes.append("C14 hypothesis monitor: %d BED records but no monitored correct_assigned_read call: the hypotheses "
+                         "WellFormedRegions / Spaced / read region were NOT checked on the real events in this run" % pstats["records"])
     ctx.extra["oracle"] = {"unit_cases": n_unit, "illumina_cases": n_ill, "illumina_changed": n_ill_changed,
-                           "pipeline": pstats, "illumina_pipeline": istats}
+                           "pipeline": pstats, "illumina_pipeline": istats,
+                           "hypothesis_monitor": {"what": "WellFormedRegions / Spaced exons / read region = exon ends / intron count / "
+                                                  "isoform inside the chromosome, on every real correct_assigned_read call of the "
+                                                  "pipeline runs (harness/mon_wrap.py)", "calls": monitored}}
 
 
 def _case_from_kw(kw):
@@ -1346,6 +1409,8 @@ def replay(ctx, failure):
         return any(k == failure["kind"] for k, _ in bed_printer_problems(inp["exons"]))
     if lvl == "illumina":
         return any(k == failure["kind"] for k, _ in illumina_problems(inp["case"]))
+    if lvl == "monitor":
+        return True
     if lvl == "tiny":
         return any(k == failure["kind"] for k, _, _ in run_tiny_case(inp["strategy"]))
     if lvl == "illumina_pipeline":
